@@ -306,6 +306,7 @@ struct scanner_s {
     void *char_source;
     read_chars_f read_func;
     int at_eof;
+    int cr_pending;         /* whether the last character of the previous buffer fill was a CR (already converted to LF) */
 
     /* cif version */
     int cif_version;
